@@ -1,0 +1,33 @@
+//go:build verif
+
+package rueidis
+
+// Export wrappers for the data/accessors family of the external model-based verification harness
+// (typed reply accessors of RedisResult / RedisMessage and the RedisError classifiers).
+// Nothing in this file is compiled without the "verif" build tag.
+
+import "bufio"
+
+// VerifDecode reads one reply with the real RESP decoder (readNextMessage).
+func VerifDecode(r *bufio.Reader) (RedisMessage, error) { return readNextMessage(r) }
+
+// VerifMsgView exposes the decoded fields of a message: RESP type byte, string payload, integer payload
+// (also the boolean as 0/1), child messages and whether an attribute frame preceded the value.
+func VerifMsgView(m RedisMessage) (typ byte, str string, n int64, vals []RedisMessage, attrs bool) {
+	typ = m.typ
+	if m.array != nil {
+		vals = m.values()
+	} else if m.bytes != nil {
+		str = m.string()
+	} else {
+		n = m.intlen
+	}
+	return typ, str, n, vals, m.attrs != nil
+}
+
+// VerifRedisError builds a *RedisError carrying exactly the given text (no "ERR " trimming), the way the
+// streaming reader and AsFtSearch construct one.
+func VerifRedisError(typ byte, text string) *RedisError {
+	m := strmsg(typ, text)
+	return (*RedisError)(&m)
+}
